@@ -61,6 +61,8 @@ MUTANTS = [
   "  for (i = 0; i < (int)logs.length; i++)\n    ldb_versions_mark_file_number(db->versions, logs.items[i]);\n\n", ""),
  ("compaction_reads_without_checksums", "C11", "src/version_set.c",
   "  options.verify_checksums = vset->options->paranoid_checks;", "  options.verify_checksums = 0;"),
+ ("group_followers_always_ok", "C12", "src/db_impl.c",
+  "      ready->status = rc;\n      ready->done = 1;", "      ready->status = LDB_OK;\n      ready->done = 1;"),
  ("flush_inside_compaction_pushed_down", "C14", "src/db_impl.c",
   "  if (!in_compaction) {\n    base = db->versions->current;", "  if (in_compaction || !in_compaction) {\n    base = db->versions->current;"),
  ("get_ignores_immutable_memtable", "C08", "src/db_impl.c",
